@@ -150,7 +150,7 @@ def step (st : DState) (line : String) : DState × String :=
             | v => v
           " | ".intercalate (Sonic.Model.Schema.runTexts (some e') (some e') texts) ++ (if alloc == "track" then " ledger=ok" else "")
       | _, _ => "bad-op")
-  | "schema-copy" :: rest => (st, Sonic.Model.Schema.runLine ("schema" :: rest))  -- the copy read-back is judged against the final tree
+  | "schema-swap" :: rest | "schema-reparse" :: rest | "schema-copy" :: rest => (st, Sonic.Model.Schema.runLine ("schema" :: rest))  -- the copy read-back is judged against the final tree
   | "lazy" :: _ => (st, Sonic.Model.Lazy.runLine st.W toks)
   | "ser" :: _ => (st, Sonic.Model.Serialize.runLine st.W toks)
   | "pod" :: _ => (st, Sonic.Model.OnDemand.runPodLine st.W toks)
